@@ -4,5 +4,5 @@ set -e
 cd "$(dirname "$0")"
 export GOFLAGS=-mod=mod GOPROXY=off GOSUMDB=off GOTOOLCHAIN=local
 mkdir -p .build evidence
-(cd harness && go test -c -tags verif -o ../.build/checks.test ./checks)
+(cd harness && go test -c -tags verif -o ../.build/checks.test ./checks && go build -tags verif -o ../.build/probe ./cmd/probe)
 echo "setup ok"
